@@ -5,6 +5,7 @@ N2  `R.update(<comp>)` / `R.extend(<comp>)` / `R.update({k: v for ...})` as a st
                                                     ->  the loop that adds / appends / stores each element
 N3  a name bound once to a generator expression and consumed once as the iterable of another comprehension or `for`
                                                     ->  the generator expression is substituted for the name
+N22 `f = True; while f: body; f = <test>` -> `while True: body; if not <test>: break`
 N21 `R |= {comp}` / `R += [comp]` / `R = set(<gen>)` / `R = [comp]` over a package walk (`*_iter(...)`) -> loop with add/append
 N4  `for x in (elt for y in it if c): body`          ->  `for y in it: if c: x = elt; body`
 N6  `for x in (a, b): body` (2..4 simple elements, no break/continue/yield, x not re-bound)
@@ -379,6 +380,37 @@ class Normalizer:
 
     # ------------------------------------------------------------------ N1, N2, N4, N5 on statement lists
     def rewrite_blocks(self, tree):
+        # N22: a loop steered by a flag: `f = True; while f: body; f = <test>` (the flag assigned once, as the last statement of the body,
+        # and read nowhere else) -> `while True: body; if not <test>: break`
+        for fn in [f for f in ast.walk(tree) if isinstance(f, (ast.FunctionDef, ast.AsyncFunctionDef))]:
+            names = {}
+            for x in ast.walk(fn):
+                if isinstance(x, ast.Name):
+                    names.setdefault(x.id, []).append(x)
+            for n in ast.walk(fn):
+                for field in ('body', 'orelse', 'finalbody'):
+                    seq = getattr(n, field, None)
+                    if not (isinstance(seq, list) and len(seq) >= 2 and isinstance(seq[0], ast.stmt)):
+                        continue
+                    for i in range(len(seq) - 1):
+                        a, w = seq[i], seq[i + 1]
+                        if not (isinstance(a, ast.Assign) and len(a.targets) == 1 and isinstance(a.targets[0], ast.Name) and isinstance(a.value, ast.Constant)
+                                and a.value.value is True and isinstance(w, ast.While) and isinstance(w.test, ast.Name) and w.test.id == a.targets[0].id
+                                and not w.orelse and w.body):
+                            continue
+                        f_ = a.targets[0].id
+                        last = w.body[-1]
+                        if not (isinstance(last, ast.Assign) and len(last.targets) == 1 and isinstance(last.targets[0], ast.Name) and last.targets[0].id == f_):
+                            continue
+                        if len(names.get(f_, [])) != 3:
+                            continue
+                        if any(isinstance(x, ast.Continue) for b_ in w.body for x in ast.walk(b_)):
+                            continue
+                        w.test = _loc(ast.Constant(value=True), w)
+                        brk = _loc(ast.If(test=_loc(ast.UnaryOp(op=ast.Not(), operand=last.value), last), body=[_loc(ast.Break(), last)], orelse=[]), last)
+                        w.body[-1] = brk
+                        seq[i] = _loc(ast.Pass(), a)
+                        self.changes += 1
         # N20: `c = <test>` immediately followed by `if c:` / `if not c:`, c read nowhere else -> the test is inlined
         for fn in [f for f in ast.walk(tree) if isinstance(f, (ast.FunctionDef, ast.AsyncFunctionDef))]:
             names = {}
